@@ -4,6 +4,7 @@
 use crate::core::*;
 use crate::engine_sr::explore;
 use crate::refcbor::{hex, V};
+use crate::refmodel;
 use crate::respcheck::*;
 use crate::spaces::*;
 use ctap_types::ctap2;
@@ -123,6 +124,94 @@ pub fn explore_responses(ctx: &'static Ctx, prop: &'static str, oracle: Oracle) 
                 l.bump(if v.ok { "agree" } else { "disagree" });
                 if !v.ok {
                     l.fail(ctx, idx, v, || rcase(sh2.kind, &sh2.plan.build(full, &devs), json!({"product_index": idx})));
+                }
+            });
+        }
+        // values whose encoding ends in a byte that has a structural meaning elsewhere (0xA0 empty
+        // map, 0x80 empty array, 0x40 / 0x60 empty strings, 0xF6 null, break, ...), in messages where
+        // the member is the last one present and where everything is present
+        {
+            let special: [u8; 12] = [0xa0, 0x80, 0x40, 0x60, 0xf6, 0xf7, 0xff, 0x00, 0xbf, 0x9f, 0xa1, 0x18];
+            let mut cases: Vec<(u64, usize, V, String)> = Vec::new();
+            let tops: Vec<usize> = plan.opts.iter().enumerate().filter(|(_, o)| o.parent.is_none()).map(|(i, _)| i).collect();
+            let mut masks: Vec<u64> = vec![full, 0];
+            for (k, t) in tops.iter().enumerate() {
+                // this top-level member alone, and all top-level members up to it (nested ones full)
+                let nested = |m: u64| -> u64 {
+                    let mut m = m;
+                    for (i, o) in plan.opts.iter().enumerate() {
+                        let mut p = o.parent;
+                        while let Some(pp) = p {
+                            if m >> pp & 1 == 1 && plan.opts[pp].parent.is_none() {
+                                m |= 1u64 << i;
+                            }
+                            p = plan.opts[pp].parent;
+                        }
+                    }
+                    m
+                };
+                masks.push(nested(1u64 << t));
+                masks.push(nested(tops[..=k].iter().map(|t| 1u64 << t).sum()));
+            }
+            masks.sort();
+            masks.dedup();
+            for m in masks {
+                if !plan.valid(m) {
+                    continue;
+                }
+                for (li, info) in plan.leaves.iter().enumerate() {
+                    if !plan.leaf_enabled(li, m) {
+                        continue;
+                    }
+                    let umax = info.menu.iter().filter_map(|v| if let V::U(x) = v { Some(*x) } else { None }).max();
+                    let bmax = info.menu.iter().filter_map(|v| if let V::B(x) = v { Some(x.len()) } else { None }).max();
+                    let tmax = info.menu.iter().filter_map(|v| if let V::T(x) = v { Some(x.len()) } else { None }).max();
+                    for b in special {
+                        if let Some(mx) = umax {
+                            for x in [b as u64, 0x0f00 | b as u64, 0x0100_0000 | b as u64] {
+                                if x <= mx {
+                                    cases.push((m, li, V::U(x), format!("uint {:#x}", x)));
+                                }
+                            }
+                        } else if let Some(mx) = bmax {
+                            // only where the member's other menu values show that the length is free
+                            let lens: std::collections::BTreeSet<usize> = info.menu.iter().filter_map(|v| if let V::B(x) = v { Some(x.len()) } else { None }).collect();
+                            for n in [1usize, 3, 16, 32] {
+                                if n <= mx && (lens.len() > 2 || lens.contains(&n)) {
+                                    let mut d = vec![0x5au8; n];
+                                    d[n - 1] = b;
+                                    cases.push((m, li, V::B(d), format!("{} bytes ending in {:#04x}", n, b)));
+                                }
+                            }
+                        } else if let Some(mx) = tmax {
+                            let ch: Option<char> = if b < 0x80 { Some(b as char) } else if (0x80..=0xbf).contains(&b) { char::from_u32(0x80 + (b as u32 - 0x80)) } else { None };
+                            let lens: std::collections::BTreeSet<usize> = info.menu.iter().filter_map(|v| if let V::T(x) = v { Some(x.len()) } else { None }).collect();
+                            if let Some(ch) = ch {
+                                let s = format!("t{}", ch);
+                                if s.len() <= mx && lens.len() > 2 {
+                                    cases.push((m, li, V::t(&s), format!("text ending in {:#04x}", b)));
+                                }
+                            }
+                        }
+                    }
+                }
+            }
+            let (sh3, cr) = (sh.clone(), &cases);
+            sweep(ctx, &format!("{} response: values ending in structural bytes", kind.name()), cases.len() as u64, "every leaf x values whose encoding ends in A0 / 80 / 40 / 60 / F6 / F7 / FF / 00 / BF / 9F / A1 / 18, with everything present, with only the member's own top-level member present, and with all top-level members up to it present (the value is then the end of the message)", move |idx, l| {
+                let (m, li, v, _) = &cr[idx as usize];
+                let wire = sh3.plan.build_with(*m, &[], &[(*li, v.clone())]);
+                l.nontrivial += 1;
+                l.bump("structural final byte");
+                let verdict = match refmodel::decode(&sh3.kind.schema(), &wire) {
+                    // the reference does not accept this value for the member (an enumeration, an exact length): not a response
+                    Err(_) | Ok(None) => return,
+                    Ok(Some(_)) => match serialize_wire(sh3.kind, &wire) {
+                        Ok(b) => oracle(prop, sh3.kind, &wire, &b),
+                        Err(p) => Verdict::fail(format!("{}|{}|panic|{}", prop, sh3.kind.name(), p.rsplit(" @ ").next().unwrap_or("")), "no panic", p),
+                    },
+                };
+                if !verdict.ok {
+                    l.fail(ctx, idx, verdict, || rcase(sh3.kind, &wire, json!({"mask": sh3.plan.describe_mask(*m), "leaf": sh3.plan.leaves[*li].path, "value": cr[idx as usize].3})));
                 }
             });
         }
